@@ -127,3 +127,27 @@ ADDED = {
 for _pid, _extra in ADDED.items():
     t, text, note, ref = CLAIMED[_pid]
     CLAIMED[_pid] = (t, text + _extra, note, ref)
+
+ADDED4 = {
+ "C01": " Round 4: a child scope is linked to exactly the scope it was created from; every body Apply evaluates runs in the scope GenEnv built for that call.",
+ "C03": " Round 4: the error of a nested evaluation reaches the caller unaltered (not wrapped with Errorf, not re-positioned), and once such an evaluation failed every path returns that error (no retry, no other return) - checked in the whole library.",
+ "C04": " Round 4: the runner of the try body starts with a deferred function that calls recover() itself (one frame deeper recover returns nil).",
+ "C05": " Round 4: every access to Env.data holds that environment's lock (the reader looks constructors up in a shared environment; shared with C11.data).",
+ "C06": " Round 4: the source text reaches the scanner unchanged (Read_str -> tokenizer -> strings.NewReader); NewKeyword prepends the marker on every path (injective).",
+ "C07": " Round 4: a loop is accepted for re-entering the evaluator only when the call is EVAL itself or Apply of a value that can only be a lisp function (builtin calls such as append no longer count as calls of unknown functions).",
+ "C08": " Round 4: the threading macros -> and ->> are expanded symbolically as well; the call of the last step sits in tail position.",
+ "C09": " Round 4: the versioned install stores under no other condition than the version comparison, reports true only after storing, and its result is examined at every call site.",
+ "C10": " Round 4: reading methods of Future neither cancel nor write Done/Cancelled, directly or through package functions.",
+ "C11": " Round 4: closures registered as builtins write nothing they captured from the registration activation (shared unlocked state); Apply's scope rule as in C01.",
+ "C13": " Round 4: no store into a map being built is conditional on the key's presence in that same map (last value wins).",
+ "C14": " Round 4: the builtin registered as = returns Equal_Q of its two arguments on every path.",
+ "C15": " Round 4: the source text reaches the scanner unchanged (as C06).",
+ "C16": " Round 4: messages of the shape the REPL classifies as 'incomplete' are built only by read_list's template and read_atom's raw-string case.",
+ "C17": " Round 4: nothing outside the reader and L-notation assigns the Cursor of an existing form; a Position is only written while private to the activation that allocated it.",
+ "C18": " Round 4: the debugger engine writes into no form or value it is handed (ownership analysis of package debugger).",
+ "C19": " Round 4: every context handed to an evaluating call derives from the caller's (eval/load-file routes honour deadlines like the others); no fmt verb other than %T is applied to a lisp value in the runtime packages; text intact as C06.",
+ "C20": " Round 4: every return of an argument vector from the builders has passed both bound checks against the bound parameters; adapters are found by signature, result adapters may be selected through a captured variable.",
+}
+for _pid, _extra in ADDED4.items():
+    t, text, note, ref = CLAIMED[_pid]
+    CLAIMED[_pid] = (t, text + _extra, note, ref)
